@@ -171,7 +171,10 @@ class Run:
                     i, args = pending.pop(0)
                     out = os.path.join(tmpdir, f"{i}.json")
                     cmd = [PY, *python_flags, "-m", "vlib.shard", self.pid, module, func, json.dumps(args), out]
-                    p = subprocess.Popen(cmd, cwd=ROOT, env=e, stdout=subprocess.PIPE, stderr=subprocess.STDOUT)
+                    logf = open(os.path.join(tmpdir, f"{i}.log"), "wb")   # a file, not a pipe: a chatty child must never block
+                    p = subprocess.Popen(cmd, cwd=ROOT, env=e, stdout=logf, stderr=subprocess.STDOUT)
+                    p._logpath = logf.name
+                    logf.close()
                     running.append((p, i, args, out, time.time()))
                 time.sleep(0.02)
                 for item in list(running):
@@ -185,7 +188,12 @@ class Run:
                             self.set_inconclusive(f"shard {func}{args} exceeded watchdog {timeout}s")
                         continue
                     running.remove(item)
-                    txt = p.stdout.read().decode("utf-8", "replace")
+                    try:
+                        with open(p._logpath, "rb") as lf:
+                            lf.seek(max(0, os.path.getsize(p._logpath) - 3000))
+                            txt = lf.read().decode("utf-8", "replace")
+                    except OSError:
+                        txt = ""
                     if rc != 0 or not os.path.exists(out):
                         self.set_inconclusive(f"shard {func}{args} died rc={rc}: {txt[-600:]}")
                         continue
@@ -226,6 +234,11 @@ class Run:
         if self.evaluations == 0:
             self.set_inconclusive("no oracle evaluation was performed")
         replay_paths = []
+        rdir = os.path.join(os.environ.get("VERIF_REPLAY_DIR") or os.path.join(ROOT, "replays" if REPO == "/repo" else ".scratch/replays"), self.pid)
+        if os.path.isdir(rdir):   # witnesses of earlier runs of this check are stale
+            for fn in os.listdir(rdir):
+                if fn.endswith(".json"):
+                    os.unlink(os.path.join(rdir, fn))
         for mech, v, _ in new:
             d = os.path.join(os.environ.get("VERIF_REPLAY_DIR") or os.path.join(ROOT, "replays" if REPO == "/repo" else ".scratch/replays"), self.pid)
             os.makedirs(d, exist_ok=True)
